@@ -105,6 +105,7 @@ func guardsInN(w *load.World, f *ssa.Function, depth int) []guard {
 func Valid(w *load.World, c *core.Collector) {
 	props := []string{"C18"}
 	queryBlocksValidated(w, c)
+	filtersValidated(w, c)
 	// V1: the request body is read in one place only
 	nBody := 0
 	for _, f := range w.Fns {
@@ -328,6 +329,7 @@ func isDelimiter(v ssa.Value, delim string) bool {
 
 func Tenant(w *load.World, c *core.Collector) {
 	shardRoot(w, c)
+	headerVerbatim(w, c)
 	props := []string{"C16"}
 	delim := "/"
 	if p := w.ByPath[clusterPkg]; p != nil {
@@ -1160,4 +1162,233 @@ func joinParts(call *ssa.Call) []ssa.Value {
 		out = append(out, byIdx[i])
 	}
 	return out
+}
+
+// headerVerbatim: the user id the API works with is the X-User-Id header as it arrived. The id
+// is a component of every record key and directory; the delimiter is kept out of it by the
+// front end. Any transformation between the header and AppHeaders.UserId (unescaping, trimming,
+// case folding) can map two different tenants onto one id, or bring the delimiter back in.
+func headerVerbatim(w *load.World, c *core.Collector) {
+	props := []string{"C16"}
+	n := 0
+	for _, f := range w.Fns {
+		if !load.InMod(f) || !strings.Contains(load.PkgPath(f), "/httpapi") {
+			continue
+		}
+		for _, b := range f.Blocks {
+			for _, in := range b.Instrs {
+				st, ok := in.(*ssa.Store)
+				if !ok {
+					continue
+				}
+				fa, ok := st.Addr.(*ssa.FieldAddr)
+				if !ok {
+					continue
+				}
+				stt := ssax.StructOf(fa.X.Type())
+				if stt == nil || ssax.TypeName(fa.X.Type()) != "middleware.AppHeaders" || stt.Field(fa.Field).Name() != "UserId" {
+					continue
+				}
+				n++
+				key := "user-id-verbatim:" + load.FnKey(f)
+				v := st.Val
+				for i := 0; i < 3; i++ {
+					if ld, ok := v.(*ssa.UnOp); ok && ld.Op == token.MUL {
+						if al, ok := ld.X.(*ssa.Alloc); ok {
+							if sv := ssax.SingleStore(al); sv != nil {
+								v = sv
+								continue
+							}
+						}
+					}
+					break
+				}
+				call, isCall := v.(*ssa.Call)
+				if isCall && call.Call.StaticCallee() != nil && call.Call.StaticCallee().String() == "(net/http.Header).Get" {
+					c.Add("TENANT", key, core.OK, w.At(in), "", props...)
+				} else {
+					c.Add("TENANT", key, core.Violation, w.At(in), "the user id is not the X-User-Id header as it arrived but something computed from it: two header values can become one id, and a decoded value can contain the delimiter that separates the user id from the collection id in every key and path", props...)
+				}
+			}
+		}
+	}
+	c.Count("user_id_header_bindings", n)
+	if n < 1 {
+		c.Add("TENANT", "anchor:user-id-binding", core.Undecided, "", "the place where AppHeaders.UserId is set from the request was not found", props...)
+	}
+}
+
+// filtersValidated: a ranking query may carry a pre-filter, which is a whole query of its own.
+// Every option block that has a Filter field gets that filter validated on the way through
+// Query.Validate — directly in the block's own Validate, or by a helper that collects the filters.
+// A block that is forgotten lets an arbitrary unvalidated query tree through to the index code.
+func filtersValidated(w *load.World, c *core.Collector) {
+	props := []string{"C18"}
+	root := findFn(w, "(models.Query).Validate")
+	if root == nil {
+		return
+	}
+	// option blocks with a Filter *Query field
+	want := map[string]bool{}
+	if pkg := w.ByPath[load.Mod+"/models"]; pkg != nil {
+		sc := pkg.Types.Scope()
+		for _, nme := range sc.Names() {
+			tn, ok := sc.Lookup(nme).(*types.TypeName)
+			if !ok {
+				continue
+			}
+			st, ok := tn.Type().Underlying().(*types.Struct)
+			if !ok {
+				continue
+			}
+			for i := 0; i < st.NumFields(); i++ {
+				if st.Field(i).Name() == "Filter" && strings.HasSuffix(st.Field(i).Type().String(), "models.Query") {
+					want["models."+nme] = true
+				}
+			}
+		}
+	}
+	if len(want) < 3 {
+		c.Add("VALID", "anchor:filter-blocks", core.Undecided, "", fmt.Sprintf("found %d option blocks with a Filter field, expected at least 3", len(want)), props...)
+	}
+	// which blocks' filters can a value be
+	var filterOf func(v ssa.Value, depth int) map[string]bool
+	filterOf = func(v ssa.Value, depth int) map[string]bool {
+		out := map[string]bool{}
+		if depth > 6 || v == nil {
+			return out
+		}
+		add := func(m map[string]bool) {
+			for k := range m {
+				out[k] = true
+			}
+		}
+		switch x := v.(type) {
+		case *ssa.UnOp:
+			if x.Op == token.MUL {
+				if fa, ok := x.X.(*ssa.FieldAddr); ok {
+					if st := ssax.StructOf(fa.X.Type()); st != nil && st.Field(fa.Field).Name() == "Filter" {
+						out[ssax.TypeName(fa.X.Type())] = true
+						return out
+					}
+				}
+				if al, ok := x.X.(*ssa.Alloc); ok {
+					for _, r := range *al.Referrers() {
+						if st, ok := r.(*ssa.Store); ok && st.Addr == ssa.Value(al) {
+							add(filterOf(st.Val, depth+1))
+						}
+					}
+					return out
+				}
+				add(filterOf(x.X, depth+1))
+			}
+		case *ssa.Field:
+			if st := ssax.StructOf(x.X.Type()); st != nil && st.Field(x.Field).Name() == "Filter" {
+				out[ssax.TypeName(x.X.Type())] = true
+			}
+		case *ssa.Phi:
+			for _, e := range x.Edges {
+				add(filterOf(e, depth+1))
+			}
+		case *ssa.IndexAddr:
+			add(filterOf(x.X, depth+1))
+		case *ssa.Slice:
+			add(filterOf(x.X, depth+1))
+		case *ssa.Parameter:
+			// a helper's parameter: what its callers pass
+			for i, q := range x.Parent().Params {
+				if q != x {
+					continue
+				}
+				for _, site := range staticCallSites(w, x.Parent()) {
+					if i < len(site.Common().Args) {
+						add(filterOf(site.Common().Args[i], depth+1))
+					}
+				}
+			}
+		case *ssa.Call:
+			// a helper that returns the collected filters: what it appends
+			if g := x.Call.StaticCallee(); g != nil && ssax.InModule(g) {
+				for _, gb := range g.Blocks {
+					for _, gi := range gb.Instrs {
+						if ac, ok := gi.(*ssa.Call); ok {
+							if bi, ok := ac.Call.Value.(*ssa.Builtin); ok && bi.Name() == "append" {
+								for _, a := range ac.Call.Args[1:] {
+									add(filterOf(a, depth+1))
+									if sl, ok := a.(*ssa.Slice); ok {
+										if arr, ok := sl.X.(*ssa.Alloc); ok {
+											for _, r := range *arr.Referrers() {
+												if ia, ok := r.(*ssa.IndexAddr); ok {
+													for _, rr := range *ia.Referrers() {
+														if st, ok := rr.(*ssa.Store); ok {
+															add(filterOf(st.Val, depth+1))
+														}
+													}
+												}
+											}
+										}
+									}
+								}
+							}
+						}
+						if st, ok := gi.(*ssa.Store); ok {
+							if _, isIdx := st.Addr.(*ssa.IndexAddr); isIdx {
+								add(filterOf(st.Val, depth+1))
+							}
+						}
+					}
+				}
+			}
+		case *ssa.Extract:
+			add(filterOf(x.Tuple, depth+1))
+		case *ssa.Next:
+			add(filterOf(x.Iter, depth+1))
+		case *ssa.Range:
+			add(filterOf(x.X, depth+1))
+		}
+		return out
+	}
+	got := map[string]bool{}
+	seen := map[*ssa.Function]bool{}
+	var visit func(f *ssa.Function, depth int)
+	visit = func(f *ssa.Function, depth int) {
+		if seen[f] || depth > 3 {
+			return
+		}
+		seen[f] = true
+		for _, b := range f.Blocks {
+			for _, in := range b.Instrs {
+				call, ok := in.(*ssa.Call)
+				if !ok {
+					continue
+				}
+				g := call.Call.StaticCallee()
+				if g == nil || !ssax.InModule(g) {
+					continue
+				}
+				if load.FnKey(g) == "(models.Query).Validate" && len(call.Call.Args) > 0 {
+					for k := range filterOf(call.Call.Args[0], 0) {
+						got[k] = true
+					}
+				}
+				if load.PkgPath(g) == load.PkgPath(root) {
+					visit(g, depth+1)
+				}
+			}
+		}
+	}
+	visit(root, 0)
+	var names []string
+	for k := range want {
+		names = append(names, k)
+	}
+	sort.Strings(names)
+	for _, k := range names {
+		key := "filter-validated:" + k
+		if got[k] {
+			c.Add("VALID", key, core.OK, w.Position(root.Pos()), "", props...)
+		} else {
+			c.Add("VALID", key, core.Violation, w.Position(root.Pos()), "the pre-filter of "+k+" is a query of its own but is not validated on the way through Query.Validate: unknown operators, missing limits and malformed ids in it reach the index code (a missing limit makes the flat search panic outside the recovery middleware)", props...)
+		}
+	}
 }
